@@ -320,6 +320,7 @@ def run(report):
     for f in ("next_name", "_process_subscript_and_names", "DimensionSymbol.__init__", "Symbol.__new__", "clone_as_symbol", "clone_as_function", "clone_as_indexed"):
         report.function(f"symplyphysics.core.symbols.symbols.{f}", PKG / src)
     bounded_aliasing(report)
+    clone_battery(report)
 
 
 # source assumption sets for the executable clone contract: facts that hold and facts that do not
@@ -346,6 +347,45 @@ def _clone_conc(fn, passed):
                "    assert c2.assumptions0 == s2.assumptions0, ('clone does not carry the assumptions of its source', facts, s2.assumptions0, c2.assumptions0)\n"))
         return try_replay(script)
     return conc
+
+
+def clone_battery(report):
+    """executed contract of the clone helpers: display / LaTeX names (override or source's, + _subscript / _{subscript}), dimension, assumptions"""
+    from symplyphysics import Symbol, units, clone_as_symbol, clone_as_function
+    from symplyphysics.core.symbols.symbols import clone_as_indexed
+    failures, count = [], 0
+    sources = [Symbol("m", units.mass, display_latex="\\mu", positive=True), Symbol("m_0", units.mass, display_latex="m_{0}"), Symbol("t_12", units.time, display_latex="t_{12}"),
+               clone_as_symbol(Symbol("x", units.length), subscript="0")]
+    for src in sources:
+        for sub in (None, "1", "0", "max", "12"):
+            for ds, dl in ((None, None), ("nu", None), ("nu", "\\nu"), (None, "\\nu")):
+                want_c = (ds or src.display_name) + (f"_{sub}" if sub else "")
+                want_l = (dl or src.display_latex) + (f"_{{{sub}}}" if sub else "")
+                for fn in ("symbol", "function"):
+                    count += 1
+                    try:
+                        c = clone_as_symbol(src, display_symbol=ds, display_latex=dl, subscript=sub) if fn == "symbol" else \
+                            clone_as_function(src, [src], display_symbol=ds, display_latex=dl, subscript=sub)
+                        got = (c.display_name, c.display_latex, c.dimension == src.dimension)
+                    except Exception as e:
+                        got = f"raised {type(e).__name__}: {e}"
+                    if got != (want_c, want_l, True):
+                        failures.append({"name": "C09/bounded/clone-names", "detail": f"clone_as_{fn}({src.display_name!r}, display_symbol={ds!r}, display_latex={dl!r}, subscript={sub!r}) -> {got}, "
+                                         f"contract ({want_c!r}, {want_l!r}, True)", "replay": {"reproduced": True, "script": "from vf.props.c09_names import replay_clone_battery\nreplay_clone_battery()\n"}})
+    report.add_bounded("clone_as_symbol / clone_as_function: display and LaTeX names (explicit or the source's, with _subscript / _{subscript} appended as given) and dimension",
+                       "4 sources (incl. names that already end in a numeric subscript) x 5 subscripts x 4 name overrides x 2 helpers", count, not failures, failures[:20])
+
+
+def replay_clone_battery():
+    class Stub:
+        failures = []
+
+        def add_bounded(self, what, bound, count, clean, failures=None):
+            self.failures = failures or []
+    st = Stub()
+    clone_battery(st)
+    assert not st.failures, [f["detail"] for f in st.failures[:3]]
+    print("clone names as the contract says")
 
 
 def bounded_aliasing(report):
@@ -386,6 +426,14 @@ def bounded_aliasing(report):
     if len({id(o) for o in fam}) != len(fam) or len(set(fam)) != len(fam) or [o.display_name for o in fam] != want_names or \
             any(o.dimension != d for o, d in zip(fam, want_dims)) or len({o.name for o in fam}) != len(fam):
         failures.append({"name": "C09/bounded/symbols-with-digit-suffixed-display-names-alias", "detail": str([(o.name, o.display_name, str(o.dimension)) for o in fam]),
+                         "replay": {"reproduced": True, "script": None}})
+    # a display name that LOOKS like a generated internal name (here: the internal name of another live symbol) is still only a display name
+    base_sym = Symbol("m", units.mass)
+    look = Symbol(str(base_sym.name), units.time)
+    count += 1
+    if look is base_sym or look == base_sym or base_sym.display_name != "m" or base_sym.dimension != units.mass or str(look.name) == str(base_sym.name) or \
+            sp.diff(base_sym**2 + look, base_sym) != 2 * base_sym:
+        failures.append({"name": "C09/bounded/display-name-equal-to-another-symbol's-internal-name-aliases-it", "detail": f"{base_sym.name} {base_sym.display_name} {base_sym.dimension} / {look.name} {look.display_name}",
                          "replay": {"reproduced": True, "script": None}})
     fa, fb = fns[0], fns[1]
     t = objs[0]
